@@ -841,9 +841,13 @@ pub enum Fam {
     BindOnValue,
     IgnoresInput,
     SharedNode,
+    /// a bind on an outer var that either uses the per-key input or ignores it
+    BindOuterChoosesInput,
 }
 
 pub struct PerKey {
+    /// start with key 0 inserted, the output observed and one stabilise done (not counted)
+    pub warm: bool,
     pub ord: bool,
     pub filter: bool,
     pub fam: Fam,
@@ -862,7 +866,7 @@ enum InK {
 
 impl Scenario for PerKey {
     fn name(&self) -> String {
-        format!("perkey/{}/{}/{:?}", if self.ord { "OrdMap" } else { "BTreeMap" }, if self.filter { "filter_mapi_" } else { "mapi_" }, self.fam)
+        format!("perkey/{}/{}/{:?}{}", if self.ord { "OrdMap" } else { "BTreeMap" }, if self.filter { "filter_mapi_" } else { "mapi_" }, self.fam, if self.warm { "/warm" } else { "" })
     }
     fn run(&self) {
         let (fam, filter) = (self.fam, self.filter);
@@ -905,6 +909,20 @@ impl Scenario for PerKey {
                 }
                 Fam::IgnoresInput => ow.map(move |o| app(F_K3, &[lit(k), o.clone()])),
                 Fam::SharedNode => sh.clone(),
+                Fam::BindOuterChoosesInput => {
+                    let o2w = o2w.clone();
+                    ow.bind(move |o| {
+                        if decide_pred(P_K, &[lit(k), o.clone()]) {
+                            let l3 = l2.clone();
+                            iv.map(move |v| {
+                                l3.borrow_mut().push((Role::Update, k));
+                                app(F_K0, &[lit(k), v.clone()])
+                            })
+                        } else {
+                            o2w.clone()
+                        }
+                    })
+                }
             }
         };
         let mut plain2 = plain.clone();
@@ -946,6 +964,21 @@ impl Scenario for PerKey {
             let mut dirty = false;
             let mut seen: Option<B<SV>> = None;
             let mut outer_written = false;
+            if self.warm {
+                model.insert(0, fresh());
+                match &keep.inp {
+                    InK::B(v) => v.set(model.clone()),
+                    InK::O(v) => v.set(MapT::from_b(&model)),
+                }
+                match &mut keep.out {
+                    OutK::B(n, o) => *o = Some(n.observe()),
+                    OutK::O(n, o) => *o = Some(n.observe()),
+                }
+                keep.state.stabilise();
+                seen = Some(model.clone());
+                log.borrow_mut().clear();
+                op_log("(warm start: Insert(0), Observe, Stabilise)".into());
+            }
             for step in 0..=self.len {
                 #[derive(Clone, Debug)]
                 enum A {
@@ -977,7 +1010,7 @@ impl Scenario for PerKey {
                     if fam != Fam::Pure {
                         acts.push(A::WriteOuter);
                     }
-                    if fam == Fam::BindOnValue {
+                    if fam == Fam::BindOnValue || fam == Fam::BindOuterChoosesInput {
                         acts.push(A::WriteOuter2);
                     }
                     acts.push(if observed { A::Unobserve } else { A::Observe });
@@ -1065,6 +1098,13 @@ impl Scenario for PerKey {
                                 }
                                 Fam::IgnoresInput => app(F_K3, &[lit(*k), ov.clone()]),
                                 Fam::SharedNode => app(F_K4, &[ov.clone()]),
+                                Fam::BindOuterChoosesInput => {
+                                    if decide_pred(P_K, &[lit(*k), ov.clone()]) {
+                                        app(F_K0, &[lit(*k), v.clone()])
+                                    } else {
+                                        o2v.clone()
+                                    }
+                                }
                             };
                             if !filter || decide_pred(P_K + 1, &[lit(*k), r.clone()]) {
                                 want.insert(*k, r);
